@@ -34,7 +34,7 @@ V1_ONLY = ["target_altitude", "target_angle", "vertical_mode", "horizontal_mode"
 
 def frame(ctx, me, df=None):
     rng = ctx.rng
-    hx = "%028X" % bits.es_frame(df or rng.choice((17, 17, 18)), rng.randrange(8), rng.fill(24), me)
+    hx = bits.anypi(rng, "%028X" % bits.es_frame(df or rng.choice((17, 17, 18)), rng.randrange(8), rng.fill(24), me))
     return hx.lower() if rng.random() < 0.15 else hx
 
 
